@@ -324,6 +324,22 @@ def run_mock_case(spec):
     return obs, osum, info
 
 
+def comp_codes(scat):
+    """get_component_list of a collection as (class id or -1 for a primitive, number of primitives below)"""
+    from holopy.scattering.scatterer import Scatterers
+    ids = {v: k for k, v in classes().items()}
+
+    def nleaves(s):
+        return sum(nleaves(c) for c in s.scatterers) if isinstance(s, Scatterers) else 1
+    return [((ids[type(c)], nleaves(c)) if isinstance(c, Scatterers) else (-1, 1)) for c in scat.get_component_list()]
+
+
+def comp_expr(spec, codes):
+    return ("zpairs_eqb (map (fun c => match c with Leaf _ => ((-1)%%Z, 1%%Z) | Node k _ => (k, Z.of_nat (List.length (leaves c))) end) "
+            "(component_list std_isinst %s)) %s" % (tree_lit(spec["tree"]),
+                                                    listlit(["(%s, %s)" % (zlit(a), zlit(b)) for a, b in codes])))
+
+
 def mock_exprs(spec, obs, osum, twopi):
     args = "%s %s %s %s %s %s %s %s" % (blit(spec["hs"]), qlit(twopi), qlit(float(spec["nm"])), det_lit(spec["det"]),
                                          wl_lit(spec["wl"]), pol_lit(spec["pol"]), blit(spec["has_center"]),
@@ -481,7 +497,14 @@ def stage_mock(ctx):
         spec = gen_mock_spec(rng, malformed)
         obs, osum, info = run_mock_case(spec)
         e1, e2 = mock_exprs(spec_for_model(spec), obs, osum, twopi)
-        for tag, e in (("calls", e1), ("sum", e2)):
+        cases = [("calls", e1), ("sum", e2)]
+        if "node" in spec["tree"]:
+            with warnings.catch_warnings():
+                warnings.simplefilter("ignore")
+                codes = comp_codes(build_tree(spec["tree"]))
+            info["component_list"] = codes
+            cases.append(("component_list", comp_expr(spec, codes)))
+        for tag, e in cases:
             exprs.append(e)
             metas.append(dict(case=k, what=tag, spec=spec, observed=info))
         nl = len(tree_leaves(spec["tree"]))
@@ -495,13 +518,17 @@ def stage_mock(ctx):
             ctx.nontriv(("mock", k))
         if k < 2:
             ctx.sample(dict(spec=spec, observed=info))
-    mism, errors, _ = run_mismatch_cases("C06m", REQ, exprs, chunk=120)
+    mism, errors, _ = run_mismatch_cases("C06m", REQ, exprs, chunk=40)
     ctx.corr_cases += len(exprs)
     for e in errors:
         ctx.violation("corr-eval-error", "model evaluation failed: " + e[:300], dict(kind="coq-error", log=e), nofail=True)
     for i in mism:
         m = metas[i]
         multi = len(m["spec"]["labels"]) > 1
+        if m["what"] == "component_list":
+            ctx.disagree("corr:component_list", "get_component_list differs from the model's flattening",
+                         dict(kind="mock", **m))
+            continue
         ctx.disagree("corr:mock:%s:%s" % (m["what"], "multi" if multi else "single"),
                      "image formation hands the theory something else than the model says (%s, %s-channel): "
                      "components / wavevector / polarisation / per-channel parameters" % (m["what"], "multi" if multi else "single"),
@@ -554,7 +581,7 @@ def stage_assembly(ctx):
                 S = mieangfuncs.asm_mie_far(asbs, theta)
                 erad = 0j
             pref = 1j / kr * cmath.exp(1j * kr)
-            e = ("cv_near %s (mie_field QO ((%s, %s), (%s, %s)) %s %s %s %s %s %s %s %s %s %s) %s" % (
+            e = ("cv_near %s (mie_field QOr ((%s, %s), (%s, %s)) %s %s %s %s %s %s %s %s %s %s) %s" % (
                 TOL_ASM, cq(S[0][0]), cq(S[0][1]), cq(S[1][0]), cq(S[1][1]), cq(pref), cq(erad),
                 qlit(math.cos(theta)), qlit(math.sin(theta)), qlit(math.cos(phi)), qlit(math.sin(phi)), cq(ph),
                 qlit(a), qlit(b), qlit(nrm), cv_lit(E[:, j])))
@@ -586,7 +613,7 @@ def stage_assembly(ctx):
             half_i2 = Ex[1, j] / math.sin(2 * phi)
             half_i0 = Ex[0, j] - half_i2 * math.cos(2 * phi)
             # leaves: K I0 = 2 half_i0, K I2 = 2 half_i2 (K and the phase folded in: both are common factors)
-            e = ("cv_near %s (mielens_assemble QO %s %s %s %s %s %s (1, 0)) %s" % (
+            e = ("cv_near %s (mielens_assemble QOr %s %s %s %s %s %s (1, 0)) %s" % (
                 TOL_ASM, cq(2 * half_i0), cq(2 * half_i2), qlit(math.cos(phi)), qlit(math.sin(phi)),
                 qlit(math.cos(gam)), qlit(math.sin(gam)), cv_lit(E[:, j])))
             exprs.append(e)
@@ -594,7 +621,7 @@ def stage_assembly(ctx):
                               lens_angle=theory.lens_angle, impl=[complex(z) for z in E[:, j]]))
         ctx.count("asm:mielens")
         ctx.nontriv(("asm-ml", k))
-    mism, errors, _ = run_mismatch_cases("C06a", REQ, exprs, chunk=150)
+    mism, errors, _ = run_mismatch_cases("C06a", REQ, exprs, chunk=20)
     ctx.corr_cases += len(exprs)
     for e in errors:
         ctx.violation("corr-eval-error", "model evaluation failed: " + e[:300], dict(kind="coq-error", log=e), nofail=True)
@@ -639,7 +666,7 @@ def stage_superposition(ctx):
     from holopy.scattering import Spheres, Mie, calc_field, calc_holo
     rng = ctx.subrng("sup")
     worst = 0.0
-    for k in range(ctx.n(50, 600)):
+    for k in range(ctx.n(150, 1500)):
         nsph = rng.choice([1, 2, 3, 4, 5, 6])
         layered = rng.random() < 0.3
         members = [gen_sphere(rng, layered and rng.random() < 0.7, span=6.0) for _ in range(nsph)]
@@ -759,7 +786,7 @@ def stage_channels(ctx):
     from holopy.scattering import Sphere, Spheres, Mie, MieLens, calc_field, calc_holo
     rng = ctx.subrng("chan")
     worst = 0.0
-    for k in range(ctx.n(36, 400)):
+    for k in range(ctx.n(100, 900)):
         nch = rng.choice([2, 3])
         labels = rng.sample(LABEL_POOL, nch)
         wls = {l: dy(rng, 0.4, 0.8, 4) for l in labels}
